@@ -477,6 +477,14 @@ func (E *Engine) loopEnter(st *State, li *loopInfo, from *ssa.BasicBlock) bool {
 	for _, f := range E.inferredInvs(st, li) {
 		E.oblige(st, "inv-entry", site+".range", f, "range index bounds", E.blockPos(li.Header), nil)
 	}
+	if li.Spec != nil && E.dry == 0 {
+		for i, cl := range li.Spec.Entry {
+			ev := E.cenvFor(st, c, cl.Ctx)
+			ev.loopMode = true
+			ev.goal = true
+			E.oblige(st, "loop-entry", fmt.Sprintf("%s.%d", site, i), ev.evalBool(cl.Expr), cl.Text, E.blockPos(li.Header), cl)
+		}
+	}
 	// dry run to collect the loop's write set
 	written, cellsW := E.dryRunLoop(st, li)
 	// havoc
